@@ -9,6 +9,7 @@ import (
 	"math/rand"
 	"os"
 	"path/filepath"
+	"sort"
 	"strconv"
 	"testing"
 
@@ -31,6 +32,11 @@ import (
 // mode "loop":  one series; level 1 = downsampleRawLoop(5 m, nc1), level 2 =
 //               downsampleAggrLoop(1 h, min(nc2, #chunks)) through the export shims, so that
 //               the TLC shapes reach chunk / part boundaries with a handful of samples.
+// mode "chunks": one series cut into given segments (in.sizes samples each, every segment in 5 m
+//               windows of its own); level 1 = one real 5 m chunk per segment (downsampleRawLoop
+//               with one chunk per segment, exactly what a single run with those batch borders
+//               yields), level 2 = downsampleAggrLoop(1 h, nc2) over MANY input chunks, so that
+//               every remainder of len / batchSize occurs (tail batches).
 // mode "block": 1..n series in a real TSDB block; both levels through the exported
 //               downsample.Downsample on real blocks (raw block -> 5 m block -> 1 h block);
 //               chunk counts are whatever targetChunkCount decides.
@@ -109,6 +115,85 @@ func pipelineCases(t *testing.T, rnd *rand.Rand, gauges bool, yield func(vt.Case
 		}
 		yield(vt.Case{"mode": "loop", "base": bases[rnd.Intn(len(bases))], "nc1": vt.Int(c["nc1"]), "nc2": vt.Int(c["nc2"]),
 			"series": []any{map[string]any{"ts": ts, "vs": vals, "ks": c["ks"]}}, "seek": seek})
+	}
+	// many input chunks: every (n, numChunks) pair of DownsampleBatchingMC, then the full grid
+	// n = 9..60 x numChunks = 2..6 (both tiers): every remainder class of the batching
+	chunkCase := func(n, nc2 int) {
+		var gen func(int) int
+		if gauges && rnd.Intn(2) == 0 {
+			gen = gaugeGen(rnd)
+		} else {
+			gen = counterGen(rnd)
+		}
+		sizes := make([]int, n)
+		var ts, vs []int
+		var ks []string
+		win := int64(rnd.Intn(24)) // current 5 m window index
+		for k := range sizes {
+			sizes[k] = 1 + rnd.Intn(4)
+			span := int64(1 + rnd.Intn(2)) // the segment lives in 1..2 windows of its own
+			lo, hi := win*res5m, (win+span)*res5m-1
+			cut := map[int64]bool{}
+			for len(cut) < sizes[k] {
+				switch rnd.Intn(5) {
+				case 0:
+					cut[lo] = true
+				case 1:
+					cut[hi] = true
+				default:
+					cut[lo+rnd.Int63n(hi-lo+1)] = true
+				}
+			}
+			seg := make([]int, 0, sizes[k])
+			for t := range cut {
+				seg = append(seg, int(t))
+			}
+			sort.Ints(seg)
+			for i, t := range seg {
+				k2, v := "F", gen(0)
+				if i > 0 && rnd.Intn(12) == 0 {
+					k2, v = []string{"NaN", "STALE"}[rnd.Intn(2)], 0
+				}
+				ts, vs, ks = append(ts, t), append(vs, v), append(ks, k2)
+			}
+			win += span + int64(rnd.Intn(8)/6) // mostly adjacent, sometimes a gap
+		}
+		seek := -1
+		if rnd.Intn(4) == 0 {
+			seek = ts[rnd.Intn(len(ts))]
+		}
+		yield(vt.Case{"mode": "chunks", "base": bases[rnd.Intn(len(bases))], "nc1": 0, "nc2": nc2, "sizes": sizes,
+			"series": []any{map[string]any{"ts": ts, "vs": vs, "ks": ks}}, "seek": seek})
+	}
+	if p := os.Getenv("VERIF_CASES_DOWNSAMPLEBATCHINGMC"); p != "" {
+		cs, err := vt.ReadNDJSON(p)
+		if err != nil {
+			t.Fatalf("reading batching cases: %v", err)
+		}
+		for _, c := range cs {
+			chunkCase(vt.Int(c["n"]), vt.Int(c["nc2"]))
+		}
+	}
+	for nc2 := 2; nc2 <= 6; nc2++ {
+		for n := 9; n <= 60; n++ {
+			chunkCase(n, nc2)
+		}
+	}
+	// long dense series through real blocks: the 5 m block has a dozen or more chunks per series
+	// and targetChunkCount asks for 2 (3) output chunks at 1 h
+	for i := 0; i < vt.Pick(3, 10); i++ {
+		hours := []int{143, 158, 176, 149, 190, 167, 290, 205, 152, 183}[i]
+		var gen func(int) int
+		if gauges && i%2 == 1 {
+			gen = gaugeGen(rnd)
+		} else {
+			gen = counterGen(rnd)
+		}
+		size := hours * 3600 / 63
+		ts, vs, ks := randomSeriesIv(rnd, size, rnd.Int63n(res1h), 60000, rnd.Intn(4), rnd.Intn(3), gen)
+		ks[0], vs[0] = "F", 7
+		yield(vt.Case{"mode": "block", "base": bases[rnd.Intn(len(bases))], "nc1": 0, "nc2": 0, "seek": -1,
+			"series": []any{map[string]any{"ts": ts, "vs": vs, "ks": ks}}})
 	}
 	n := vt.Pick(60, 400)
 	for i := 0; i < n; i++ {
@@ -212,6 +297,28 @@ func runPipeline(c vt.Case) (ev vt.Event) {
 				ev["got"] = map[string]any{"kind": "error", "msg": err.Error()}
 				return ev
 			}
+		}
+		l1, l2 = [][]chunks.Meta{m1}, [][]chunks.Meta{m2}
+	case "chunks":
+		ts, vs := rawOfSeries(base, series[0])
+		var m1 []chunks.Meta
+		at := 0
+		for _, sz := range vt.Ints(c["sizes"]) {
+			m1 = append(m1, downsample.VerifDownsampleRawLoop(ts[at:at+sz], vs[at:at+sz], res5m, 1)...)
+			at += sz
+		}
+		acs := make([]*downsample.AggrChunk, len(m1))
+		for i := range m1 {
+			acs[i] = m1[i].Chunk.(*downsample.AggrChunk)
+		}
+		nc2 := vt.Int(c["nc2"])
+		if nc2 > len(acs) {
+			nc2 = len(acs)
+		}
+		m2, err := downsample.VerifDownsampleAggrLoop(acs, res1h, nc2)
+		if err != nil {
+			ev["got"] = map[string]any{"kind": "error", "msg": err.Error()}
+			return ev
 		}
 		l1, l2 = [][]chunks.Meta{m1}, [][]chunks.Meta{m2}
 	default:
